@@ -276,12 +276,24 @@ Proof.
   - intros H; injection H as <-; split; [discriminate|discriminate].
 Qed.
 
+Lemma construct_ok_raw f r : construct f = Ok r -> construct_raw f = Ok r.
+Proof.
+  unfold construct, catch. destruct (construct_raw f) as [r'|e]; [auto|].
+  destruct (existsb (subclass e) [EIndex; EStruct]); discriminate.
+Qed.
+
+Lemma construct_raw_err f e : construct_raw f = Err e -> e <> EIndex -> e <> EStruct -> construct f = Err e.
+Proof.
+  intros H H1 H2. unfold construct, catch. rewrite H.
+  destruct e; try reflexivity; congruence.
+Qed.
+
 Theorem construct_accepts f r :
   construct f = Ok r ->
   frame_validate f = Ok tt
   /\ (is_props f = true \/ response_validate (slice_neg f 10 1) = Ok tt).
 Proof.
-  unfold construct, construct_raw.
+  intros H0. apply construct_ok_raw in H0. revert H0. unfold construct_raw.
   destruct (frame_validate f) as [[]|] eqn:Hv; cbn [bind]; [|discriminate].
   destruct (classify f) as [k|] eqn:Hk; cbn [bind]; [|discriminate].
   intros H. split; [reflexivity|].
@@ -290,8 +302,10 @@ Proof.
   left. apply (classify_props f KProps Hk). reflexivity.
 Qed.
 
-Theorem construct_rejects_bad_outer f e : frame_validate f = Err e -> construct f = Err e.
-Proof. intros H. unfold construct, construct_raw. rewrite H. reflexivity. Qed.
+Theorem construct_rejects_bad_outer f : frame_validate f = Err EInvalidFrame -> construct f = Err EInvalidFrame.
+Proof.
+  intros H. apply construct_raw_err; try discriminate. unfold construct_raw. rewrite H. reflexivity.
+Qed.
 
 Theorem construct_rejects_bad_body f :
   frame_validate f = Ok tt -> is_props f = false ->
@@ -299,7 +313,8 @@ Theorem construct_rejects_bad_body f :
   (exists k, classify f = Ok k) ->
   construct f = Err EInvalidResponse.
 Proof.
-  intros Hv Hp Hr [k Hk]. unfold construct, construct_raw. rewrite Hv, Hk. cbn [bind].
+  intros Hv Hp Hr [k Hk]. apply construct_raw_err; try discriminate.
+  unfold construct_raw. rewrite Hv, Hk. cbn [bind].
   destruct k; try (rewrite Hr; reflexivity).
   exfalso. pose proof (proj1 (classify_props f KProps Hk) eq_refl). congruence.
 Qed.
